@@ -107,13 +107,16 @@ var c12Patches = []string{
 	"@@\nvar x expression\n@@\n-chainFoo(x)\n+chainBar(x)\n\n@@\nvar x expression\n@@\n-chainDrop()\n chainBar(x)\n\n@@\nvar y expression\n@@\n chainBar(y)\n-chainAfter()\n",
 	// an import is removed: whether it may go depends on what still refers to the package, which every mode has to decide alike
 	"# drop dep\n@@\nvar x expression\n@@\n-import \"example.com/old/dep\"\n\n-dep.Do(x)\n+do(x)\n",
+	// the second, described change matches the files only where its replacement cannot stand: it applies to none of
+	// them and its description is never printed
+	"# bump it\n@@\nvar x expression\n@@\n-bump(x)\n+bump(x + 1)\n\n# qualify helper\n@@\n@@\n-helperFn\n+util.HelperFn\n",
 }
 
 func init() {
 	core.Register(&core.Prop{
 		ID:    "C12",
 		Level: "exploration",
-		Rule: "cases: one patch (8 patches incl. multi-change, import-adding, import-removing with shadowing locals, described) x 1-12 generated/corpus files (layouts incl. CRLF, no final newline, long lines; an unparseable file mixed in) x flag set from {--skip-import-processing, --skip-generated, -v}; a fourth run passes --diff and --print-only together (either order) and must not write either; " +
+		Rule: "cases: one patch (9 patches incl. a described change that matches only where its replacement cannot stand, multi-change, import-adding, import-removing with shadowing locals, described) x 1-12 generated/corpus files (layouts incl. CRLF, no final newline, long lines; an unparseable file mixed in) x flag set from {--skip-import-processing, --skip-generated, -v}; a fourth run passes --diff and --print-only together (either order) and must not write either; " +
 			"the same inputs are run in place, with --print-only and with --diff on separate scratch copies, every 4th case with the dry runs under strace -f, plus the library API. Monitors: (1) syscall monitor: in dry-run modes the set of mutating syscalls " +
 			"(open for write/create/truncate, write to a file descriptor other than stdout/stderr, rename, unlink, mkdir, chmod, utimensat, ...) must be empty; (2) tree digest (names, bytes, inode, mtime, ctime) identical before/after a dry run; " +
 			"(3) agreement: in-place bytes == --print-only bytes == strict application of the printed unified diff == library bytes; descriptions on stderr only and only for rewritten files. non-trivial = >=1 file of the run is rewritten; distinct = (flag set, files-per-run class, patch, layouts).",
@@ -145,7 +148,7 @@ func runC12(ctx *core.Ctx, idx int) *core.Result {
 		if r.Intn(4) > 0 {
 			for i := 0; i < 1+r.Intn(3); i++ {
 				switch pi {
-				case 0, 5:
+				case 0, 5, 8:
 					plants = append(plants, gen.Plant{Kind: "expr", Text: "bump(" + g.Atom() + ")"})
 				case 1:
 					plants = append(plants, gen.Plant{Kind: "expr", Text: "pair(" + g.Atom() + ", " + g.Expr(1, nil) + ")"})
@@ -171,6 +174,12 @@ func runC12(ctx *core.Ctx, idx int) *core.Result {
 			}
 		}
 		fo := gen.FileOpts{Plants: plants}
+		if pi == 8 {
+			fo.Plants = append(fo.Plants, gen.Plant{Kind: "decl", Text: fmt.Sprintf("func helperFn%s() {}", map[bool]string{true: "", false: fmt.Sprint(f)}[f == 0])})
+			if f%2 == 1 {
+				fo.Plants = append(fo.Plants, gen.Plant{Kind: "decl", Text: fmt.Sprintf("type holder%d struct {\n\thelperFn int\n}", f)})
+			}
+		}
 		if pi == 7 {
 			fo.Imports = "import (\n\t\"example.com/old/dep\"\n\t\"os\"\n)\n"
 			switch r.Intn(4) {
@@ -435,6 +444,9 @@ func runC12(ctx *core.Ctx, idx int) *core.Result {
 					res.Violate("C12/description-for-unchanged-file", l, rep)
 				}
 			}
+		}
+		if strings.Contains(string(cr.Stderr), ":qualify helper") {
+			res.Violate("C12/description-of-a-change-that-did-not-apply", core.Trunc(string(cr.Stderr), 300), rep)
 		}
 		if strings.Contains(string(cr.Stdout), ":bump it\n") || strings.Contains(string(cr.Stdout), ":inline\n") {
 			res.Violate("C12/description-on-stdout", core.Trunc(string(cr.Stdout), 300), rep)
